@@ -1,4 +1,4 @@
-import SaVerif.Model.Sess
+import SaVerif.Model.SessTxn
 /-!
 # C33 — Session commit/rollback/savepoint keep the session consistent with the database
 
@@ -18,7 +18,7 @@ released savepoint (F21) and for added+key-switched objects (F23).  The unrestri
 carried by the differential correspondence and the oracle of `harness/props/c33.py`.
 -/
 namespace SaVerif.Props.C33
-open SaVerif.Sess
+open SaVerif.SessTxn
 
 /-- the consistency predicate of the property (decidable: used in evaluated examples and as
     the formal counterpart of the harness oracle) -/
